@@ -188,19 +188,32 @@ func (box *boxTracker) compactRules(rules []css_ast.Rule, keyRange logger.Range,
 
 	// Remove all of the existing declarations
 	var minLoc logger.Loc
+	var lastRuleIndex uint32
 	for i, side := range box.sides {
 		if loc := rules[side.ruleIndex].Loc; i == 0 || loc.Start < minLoc.Start {
 			minLoc = loc
 		}
+		if side.ruleIndex > lastRuleIndex {
+			lastRuleIndex = side.ruleIndex
+		}
 		rules[side.ruleIndex] = css_ast.Rule{}
 	}
 
-	// Insert the combined declaration where the last rule was
-	rules[box.sides[3].ruleIndex] = css_ast.Rule{Loc: minLoc, Data: &css_ast.RDeclaration{
+	// Insert the combined declaration where the last rule was. It must not be
+	// inserted before that because there may be a declaration for one of the
+	// sides with a unit that may not be supported in between, which the last
+	// rule for that side overrides: "left: 0; top: 1vw; top: 0; ..."
+	rules[lastRuleIndex] = css_ast.Rule{Loc: minLoc, Data: &css_ast.RDeclaration{
 		Key:       box.key,
 		KeyText:   box.keyText,
 		Value:     tokens,
 		KeyRange:  keyRange,
 		Important: box.important,
 	}}
+
+	// All sides now come from the combined declaration
+	for i := range box.sides {
+		box.sides[i].ruleIndex = lastRuleIndex
+		box.sides[i].wasSingleRule = false
+	}
 }
